@@ -655,4 +655,91 @@ theorem offsets_forward_standard_representable (l : Loc) (hwf : geneWF l = true)
   simp only [containsOverlappingExons, hp, this]
   split <;> rfl
 
+/-- reverse walk over exons listed downwards without overlap: the new parts end at strictly decreasing coordinates -/
+theorem subParts_desc_nodup (st : Strand) : ∀ (ps : List Part) (off s e : Int),
+    (∀ p ∈ ps, p.lo < p.hi) → descDisjoint ps →
+    hasDup ((subParts true st ps off s e).map (·.hi)) = false := by
+  intro ps
+  induction ps with
+  | nil => intro off s e _ _; simp [subParts, hasDup]
+  | cons p rest ih =>
+    intro off s e hpos hdesc
+    have hp := hpos p (by simp)
+    have hrest : ∀ q ∈ rest, q.lo < q.hi := fun q hq => hpos q (by simp [hq])
+    have IH := ih (off + p.len) s e hrest (descDisjoint_tail p rest hdesc)
+    have hlater : ∀ q' ∈ subParts true st rest (off + p.len) s e, q'.hi ≤ p.lo := by
+      intro q' hq'
+      obtain ⟨p', hp', _, _, h3, _⟩ := subParts_inside true st rest (off + p.len) s e
+        (fun x hx => Int.le_of_lt (hrest x hx)) q' hq'
+      have := descDisjoint_hi_le p rest hpos hdesc p' hp'
+      omega
+    simp only [subParts]
+    by_cases hc : max (s - off) 0 < min (e - off) p.len
+    · simp only [hc, if_true]
+      have hq : p.lo < (slicePart true st p (max (s - off) 0) (min (e - off) p.len)).hi := by
+        simp only [slicePart, if_true, Part.len] at hc ⊢; omega
+      split
+      · simp [hasDup]
+      · simp only [List.singleton_append, List.map_cons]
+        apply hasDup_cons_false _ _ _ IH
+        intro hmem
+        obtain ⟨q', hq', heq⟩ := List.mem_map.mp hmem
+        have := hlater q' hq'
+        omega
+    · simp only [hc, if_false, List.nil_append]
+      split
+      · simp [hasDup]
+      · exact IH
+
+theorem offsets_reverse_standard_representable (l : Loc) (hwf : geneWF l = true) (hr : isRev l = true)
+    (hdesc : descDisjointB l.parts = true) (a b : Nat) (hab : a < b) (hb : (b : Int) ≤ l.len) :
+    ∃ r, subLocationFromOffsets l a b = .ok r ∧ bases r = sliceL (bases l) a b ∧ containsOverlappingExons r = false := by
+  obtain ⟨r, hrr, hbs, _⟩ := subLocationFromOffsets_slice l hwf a b hab hb
+  obtain ⟨_, hparts⟩ := (geneWF_iff l).mp hwf
+  refine ⟨r, hrr, hbs, ?_⟩
+  have hp := subLocationFromOffsets_parts l r a b hrr
+  have := subParts_desc_nodup l.strand l.parts 0 a b (fun p hp => (hparts p hp).1) (descDisjoint_of_B _ hdesc)
+  rw [hr] at hp
+  simp only [containsOverlappingExons, hp, this]
+  split <;> rfl
+
+theorem subLocation_compound_eq (ps : List Part) (s e : Nat) (hse : s < e)
+    (he : (e : Int) ≤ (Loc.compound ps).len / 3) :
+    subLocation (.compound ps) s e = subLocationFromOffsets (.compound ps) ((3 * s : Nat) : Int) ((3 * e : Nat) : Int) := by
+  have c1 : (decide (0 ≤ (s : Int)) && decide ((s : Int) ≤ (Loc.compound ps).len / 3 - 1)) = true := by
+    simp; omega
+  have c2 : (decide (1 ≤ (e : Int)) && decide ((e : Int) ≤ (Loc.compound ps).len / 3)) = true := by
+    simp; omega
+  have c3 : ¬ ((s : Int) ≥ e) := by omega
+  have e1 : (s : Int) * 3 = ((3 * s : Nat) : Int) := by push_cast; omega
+  have e2 : (e : Int) * 3 = ((3 * e : Nat) : Int) := by push_cast; omega
+  simp only [subLocation, c1, c2, c3, Bool.not_true, Bool.false_eq_true, if_false, e1, e2]
+
+/-- a gene in the standard exon order of its strand: no annotation positioned by protein coordinates is refused -/
+theorem annotation_standard_representable (l : Loc) (hwf : geneWF l = true)
+    (hstd : (isRev l = false ∧ ascDisjointB l.parts = true) ∨ (isRev l = true ∧ descDisjointB l.parts = true))
+    (s e : Nat) (hse : s < e) (he : (e : Int) ≤ l.len / 3) :
+    ∃ r, subLocation l s e = .ok r ∧ featureAt (subLocation l s e) = .ok r ∧
+      bases r = sliceL (bases l) (3 * s) (3 * e) := by
+  obtain ⟨r, hr, hb, _⟩ := subLocation_slice l hwf s e hse he
+  refine ⟨r, hr, ?_, hb⟩
+  have hno : containsOverlappingExons r = false := by
+    cases l with
+    | simple p =>
+      have hlen : (Loc.simple p).len = p.hi - p.lo := by simp [Loc.len, Loc.parts, Part.len]
+      rw [hlen] at he
+      rw [subLocation_simple p s e hse he] at hr
+      cases hr; rfl
+    | compound ps =>
+      have hpos := len_nonneg (.compound ps) hwf
+      rw [subLocation_compound_eq ps s e hse he] at hr
+      rcases hstd with ⟨h1, h2⟩ | ⟨h1, h2⟩
+      · obtain ⟨r', hr', _, hn⟩ := offsets_forward_standard_representable (.compound ps) hwf h1 h2 (3 * s) (3 * e)
+          (by omega) (by push_cast; omega)
+        rw [hr] at hr'; cases hr'; exact hn
+      · obtain ⟨r', hr', _, hn⟩ := offsets_reverse_standard_representable (.compound ps) hwf h1 h2 (3 * s) (3 * e)
+          (by omega) (by push_cast; omega)
+        rw [hr] at hr'; cases hr'; exact hn
+  simp [featureAt, hr, Res.bind, hno]
+
 end ASV.ProtDna
